@@ -338,6 +338,10 @@ class Gen:
             return Un(r.choice(['neg', 'compl']), self.int_expr(cx, ty, d - 1, nonconst=True))
         if c < 0.75:
             return Conv(ty, self.int_expr(cx, tint(r.choice([x for x in self.kinds if x != k] or ['i64'])), d - 1, nonconst=True))
+        if c < 0.9 and ty == tint('u8') and self.rng.random() < 0.5:
+            self.charge(cx, 6)
+            self.feat.add('string-index')
+            return Call(self.prelude('SIdx'), [self.str_expr(cx, d - 1), self.int_expr(cx, tint('uint'), d - 1)])
         if c < 0.82 and ty == INT:
             seqs = [e for e, t in self.readables(cx) if under(t) == STR or (isinstance(under(t), tuple) and under(t)[0] in ('slice', 'arr'))]
             if seqs:
@@ -537,7 +541,7 @@ class Gen:
         if cx.depth < 4:
             choices += [('if', 10), ('for', 9), ('switch', 5), ('range', 7)]
         if not cx.pure:
-            choices += [('call', 10), ('closure', 5), ('slice', 7), ('pointer', 5), ('iface', 5), ('tswitch', 4), ('rangefunc', 3)]
+            choices += [('call', 10), ('closure', 5), ('slice', 7), ('strops', 4), ('pointer', 5), ('iface', 5), ('tswitch', 4), ('rangefunc', 3)]
         if cx.loops and cx.depth >= 1:
             choices += [('jump', 6)]
         if cx.results is not None and cx.depth >= 1 and not cx.is_main:
@@ -727,6 +731,13 @@ class Gen:
         else:
             tag = None
             mk = lambda: [self.bool_expr(cx, 2)]
+        init = []
+        cx.push()
+        if tag is not None and is_int(under(tag.ty)) and r.random() < 0.3:
+            iv = self.newvar(cx, tag.ty)
+            init = [Decl([iv], [tag])]
+            cx.add(iv)
+            tag = Bin('add', VarRef(iv), IntLit(tag.ty, 0)) if r.random() < 0.5 else VarRef(iv)
         cx.loops.append(rec)
         for ci in range(ncase):
             es = mk()
@@ -747,7 +758,8 @@ class Gen:
         self.feat.add('switch')
         if any(c.fall for c in cases):
             self.feat.add('fallthrough')
-        return [Switch(rec['lbl'] if rec['used'] else '', [], tag, cases)]
+        cx.pop()
+        return [Switch(rec['lbl'] if rec['used'] else '', init, tag, cases)]
 
     def s_range(self, cx):
         r = self.rng
@@ -1030,6 +1042,33 @@ class Gen:
             k = self.newvar(cx, INT, 'k')
             return [RangeSeq('', k, x, s, [Print(False, [VarRef(k), StrLit(b":"), VarRef(x), StrLit(b" ")])]), Print(True, [LenCap('len', s)])]
         return None
+
+    def s_strops(self, cx):
+        r = self.rng
+        U8 = ('slice', tint('u8'))
+        bvars = [v for v in cx.vars() if v.ty == U8]
+        c = r.random()
+        if c < 0.35 or (c < 0.7 and not bvars):
+            b = self.newvar(cx, U8, 's')
+            st = Decl([b], [StrConv('bytesofstr', self.str_expr(cx, 1))])
+            cx.add(b)
+            self.feat.add('bytes-of-string')
+            return [st]
+        if c < 0.7:
+            v = self.newvar(cx, STR)
+            st = Decl([v], [StrConv('strofbytes', VarRef(r.choice(bvars)))])
+            cx.add(v)
+            self.feat.add('string-of-bytes')
+            return [st]
+        strs = [e for e in self.of_type(cx, STR)]
+        if not strs:
+            return None
+        s = r.choice(strs)
+        U = tint('uint')
+        ch = self.newvar(cx, tint('u8'), 'c')
+        idx = Bin('rem', self.int_expr(cx, U, 1, nonconst=True), Conv(U, LenCap('len', s)))
+        self.feat.add('string-index')
+        return [If([], Bin('gt', LenCap('len', s), IntLit(INT, 0)), [Decl([ch], [Index(s, idx)]), Print(True, [VarRef(ch), LenCap('len', s)])], [])]
 
     def s_pointer(self, cx):
         w = [(e, t) for e, t in self.writables(cx) if is_simple(t) and self.type_pkg(t) <= cx.pkg]
